@@ -57,10 +57,16 @@ def undeclared_names(value, text):
     leaves = {a for a in value.atoms(sp.Symbol) if isinstance(a, DimensionSymbol)}
     leaves |= {a.func for a in value.atoms(sp.core.function.AppliedUndef) if isinstance(a.func, DimensionSymbol)}
     out = []
-    for leaf in leaves:
+    seen = {}
+    for leaf in sorted(leaves, key=str):
         dl = getattr(leaf, "display_latex", None)
         if dl and norm(dl) not in t:
             out.append(dl)
+        # two different symbols of one equation under one LaTeX name: read as mathematics the rendering is another expression
+        if dl and norm(dl) in seen and seen[norm(dl)] != leaf:
+            out.append(f"{dl} [one name for two different symbols of this equation]")
+        if dl:
+            seen.setdefault(norm(dl), leaf)
     return sorted(out)
 
 
@@ -90,7 +96,7 @@ def check_file(relpath):
         out.append({"name": name + ":wellformed", "verdict": "discharged", "trivial": True})
         missing = undeclared_names(m.value, text)
         if missing:
-            out.append({"name": name, "verdict": "candidate", "why": f"declared LaTeX display names {missing} do not appear in the rendering", "file": relpath, "member": m.name,
+            out.append({"name": name, "verdict": "candidate", "why": f"declared LaTeX display names {missing} do not appear in the rendering (or name two symbols at once)", "file": relpath, "member": m.name,
                         "text": text, "vals": None})
             continue
         out.append({"name": name + ":display-names", "verdict": "discharged", "trivial": True})
